@@ -411,3 +411,37 @@ def run_bx_history(name, maxlen):
         r.failures.append({'function': 'builder history', 'message': '; '.join(v['clauses'][:3]), 'history': v['history'], 'clauses': v['clauses'],
                            'tags': ['C12'], 'props': ['C12', 'C03']})
     return r
+
+
+def run_bx_convert(name, maxlen):
+    """bounded stand-in for convert_record_definition (C20)"""
+    r = UnitResult(name, 'bx (native bounded-exhaustive execution of the conversion helper against its postcondition)')
+    t0 = time.time()
+    exe, err = build_bx()
+    if exe is None:
+        r.status, r.reason = INCONCLUSIVE, 'bx does not build against the current tree: %s' % err
+        return r
+    cmd = [exe, 'convert', '--max-len', str(maxlen)]
+    r.cmd = ' '.join(cmd)
+    rc, out, err, wall, to = _sh(cmd, 7200)
+    r.wall_s = time.time() - t0
+    try:
+        j = json.loads(out)
+    except Exception:
+        r.status, r.reason = INCONCLUSIVE, 'bx convert rc=%s: %s' % (rc, (out + err)[-800:])
+        return r
+    r.obligations = j['conversions']
+    r.discharged = j['conversions'] - (1 if j.get('violation') else 0)
+    r.bounded = ('BOUNDED: every source definition built by a request sequence of <= %d requests over {add a|b|c with shape 1/1 (uninit-allowed), 4/4 or 0/1; '
+                 'remove id 0..2; close with simple or basic}, replayed through convert_record_definition into a native builder (simple), a native builder '
+                 '(append_data) and a generic builder' % maxlen)
+    r.extra = {'evaluations': j['conversions'], 'distinct_nontrivial': j['multi_variant_sources'] * 3,
+               'rule': 'one evaluation = one replay of one source definition into one target; non-trivial = the source has at least two variants',
+               'samples': [j.get('sample')], 'sources': j['sources']}
+    if j.get('violation'):
+        v = j['violation']
+        r.status = VIOLATION
+        r.reason = 'a replay violates the postcondition of the conversion helper'
+        r.failures.append({'function': 'convert_record_definition', 'message': '; '.join(v['clauses'][:3]), 'convert_case': v, 'clauses': v['clauses'],
+                           'tags': ['C20'], 'props': ['C20']})
+    return r
